@@ -1,5 +1,5 @@
 """C16 - SM to SSC conversion keeps every property, chart, timing and note (structural clauses)."""
-from ..rules import convert, fwd, readers, writers, baseline
+from ..rules import convert, fwd, readers, writers, baseline, views, state
 
 EXPLANATION = (
     "Static rule checking of sm_to_ssc: R-ALIAS every aliased item property of the source class resolves to the same key/alias "
@@ -34,6 +34,11 @@ def c5(ctx):
     readers.ssc_simfile_table(ctx, raw_key_ok=True, relaxed=True)
 
 
+def c_views(ctx):
+    views.key_chooser(ctx)
+    state.shared_state(ctx, ['simfile.convert:sm_to_ssc'], 'the conversion of one simfile depends on that simfile, the templates and the policy only')
+
+
 def c_api(ctx):
     baseline.surface(ctx, "C16: documented surface", modules=['simfile.convert'], keys=['simfile.ssc.SSCSimfile', 'simfile.ssc.SSCChart', 'simfile.sm.SMSimfile'])
 
@@ -43,5 +48,6 @@ CLAUSES = [
     ("C16.3", "every property is copied when the target is SSC (R-TABLE)", c3),
     ("C16.4", "negative BPM/stop refusal first (R-ORDER)", c4),
     ("C16.6", "the result's serialization loads back as an equal SSC simfile: every key is written, the notes item (by key) last (shared with C02)", c5),
+    ("C16.7", "properties are read and written through the attribute views under the documented key (alias exactly when the standard key is absent); no process-wide state between conversions (R-STATE)", c_views),
     ("C16.api", "public surface: signatures and defaults, constants, enumerations, blank templates, base classes as confirmed (R-API)", c_api),
 ]
